@@ -6,6 +6,32 @@ from harness import qobs
 UNIT = qobs.UNIT
 
 
+class CallDidNotReturn(Exception):
+    """A matcher call that runs for 20 seconds on a tiny index does not terminate (an 'error' event)."""
+
+
+import contextlib as _contextlib
+
+
+@_contextlib.contextmanager
+def _deadline(seconds):
+    import signal
+    import threading
+    if threading.current_thread() is not threading.main_thread():
+        yield
+        return
+
+    def onalarm(signum, frame):
+        raise CallDidNotReturn("no return after %d s" % seconds)
+    old = signal.signal(signal.SIGALRM, onalarm)
+    signal.setitimer(signal.ITIMER_REAL, seconds)
+    try:
+        yield
+    finally:
+        signal.setitimer(signal.ITIMER_REAL, 0)
+        signal.signal(signal.SIGALRM, old)
+
+
 class Recorder(object):
     """mode 'exact': scores are dyadic -> scaled ints; mode 'rank': floats are
     interned by rank after the trace is complete."""
@@ -52,7 +78,8 @@ class Recorder(object):
 
     def call(self, what, fn):
         try:
-            return True, fn()
+            with _deadline(20):
+                return True, fn()
         except NotImplementedError:
             # a protocol method the class does not implement: reported on its own
             # (call, class) and the program goes on - nothing moved
@@ -255,6 +282,22 @@ def run_program(rec, m, rng, nsteps, thresholds=(0,), allow_reset=True, blocksca
         if rec.failed:
             return
         rec.state(k)
+
+
+def run_sweep(rec, m, nnext, threshold, blockscan=False):
+    """A short program: nnext steps from the start, then skip_to_quality(threshold)."""
+    k0 = rec.new(m)
+    if rec.failed:
+        return
+    st = {"live": [k0], "replaced": set(), "nimpl": len(rec.notimpl)}
+    exec_op(rec, st, "start", k0, False, blockscan)
+    for _ in range(nnext):
+        if not rec.failed and k0 in st["live"] and rec.objs[k0].is_active():
+            exec_op(rec, st, "next", k0, None, blockscan)
+    if not rec.failed and k0 in st["live"] and rec.objs[k0].is_active() and rec.objs[k0].supports_block_quality():
+        exec_op(rec, st, "skipq", k0, threshold, blockscan)
+        if not rec.failed and k0 in st["live"]:
+            exec_op(rec, st, "quality", k0, None, blockscan)
 
 
 def reexecute(rec, m, program, blockscan=False):
